@@ -96,16 +96,20 @@ Inductive string_body : str -> str -> Prop :=
 
 (* Block strings: BlockStringCharacter :: SourceCharacter but not a triple
    quote or an escaped (backslash) triple quote, the latter standing for a
-   triple quote.  [block_body raw v]: raw (which contains no unescaped triple
-   quote) denotes the raw block string value v. *)
+   triple quote.  [block_scan rest raw r']: rest (the text after the opening
+   delimiter) is a sequence of BlockStringCharacters denoting the raw value
+   raw, then the closing triple quote, then r'.  The look-ahead exclusions
+   range over the whole remaining text, closing delimiter included. *)
 Definition triple_quote (l : str) : Prop := exists r, l = 34 :: 34 :: 34 :: r.
 
-Inductive block_body : str -> str -> Prop :=
-| BB_nil : block_body [] []
-| BB_esc raw v : block_body raw v -> block_body (92 :: 34 :: 34 :: 34 :: raw) (34 :: 34 :: 34 :: v)
-| BB_char c raw v : SourceCharacter c -> ~ triple_quote (c :: raw) ->
-                    ~ (c = 92 /\ triple_quote raw) ->
-                    block_body raw v -> block_body (c :: raw) (c :: v).
+Inductive block_scan : str -> str -> str -> Prop :=
+| BS_end r' : block_scan (34 :: 34 :: 34 :: r') [] r'
+| BS_esc rest raw r' :
+    block_scan rest raw r' ->
+    block_scan (92 :: 34 :: 34 :: 34 :: rest) (34 :: 34 :: 34 :: raw) r'
+| BS_char c rest raw r' :
+    SourceCharacter c -> ~ triple_quote (c :: rest) -> ~ (c = 92 /\ triple_quote rest) ->
+    block_scan rest raw r' -> block_scan (c :: rest) (c :: raw) r'.
 
 (* ------------------------------------------------------------------ *)
 (* 2.9.4  BlockStringValue(rawValue), transcribed step by step.
